@@ -695,6 +695,129 @@ func c08corpus() []string {
 	return res
 }
 
+// ---- comments around the elements of containers -----------------------------------------
+
+var c08elemPool = []string{"1", "-2", "+3", "not x", "\"s\"", "(a + b)", "[1, 2]", "{1 : 2}", "x", "f(1)"}
+var c08keyPool = []string{"1", "-2", "+3", "\"k\"", "x", "(a + b)"}
+
+// c08commentForms places a comment relative to element i: after the element (the separator
+// leads the next line), after the separator, before the element, between element and separator.
+var c08commentForms = []struct{ before, afterElem, afterSep string }{
+	{"", " # one\n", ""},
+	{"", "", " # one\n"},
+	{"/* c */ ", "", ""},
+	{"", " /* c */", ""},
+}
+
+// c08commented renders open e0 sep e1 ... close with a comment at element i in the given
+// form; onePerLine puts every element on its own line (separator trailing).
+func c08commented(open, close string, elems []string, i, form int, onePerLine bool) string {
+	f := c08commentForms[form]
+	var sb strings.Builder
+	sb.WriteString(open)
+	for k, e := range elems {
+		if onePerLine {
+			sb.WriteString("\n ")
+		}
+		if k == i {
+			sb.WriteString(f.before)
+		}
+		sb.WriteString(e)
+		if k == i {
+			sb.WriteString(f.afterElem)
+		}
+		if k < len(elems)-1 {
+			sb.WriteString(",")
+			if k == i {
+				sb.WriteString(f.afterSep)
+			}
+			sb.WriteString(" ")
+		} else if k == i && f.afterSep != "" {
+			sb.WriteString(f.afterSep)
+		}
+	}
+	if onePerLine {
+		sb.WriteString("\n")
+	}
+	sb.WriteString(close)
+	return sb.String()
+}
+
+// commentedContainers: post and pre comments after / before every element of lists (1..7),
+// maps (1..4), call arguments (1..6) and parameter lists with presets (1..5), the commented
+// element and its successor drawn from the pools (signs, not, strings, brackets, nested
+// containers, identifiers, calls).  Quick tier: every position and form, the successor always
+// ranging over -n, +n and one rotating further element; thorough: all pairs.
+func (s *c08state) commentedContainers() {
+	c := s.c
+	type shape struct {
+		name        string
+		open, close string
+		maxN        int
+		render      func(k int, e string) string
+		prefix      string
+		suffix      string
+		eval        bool
+	}
+	shapes := []shape{
+		{"list", "[", "]", 7, func(k int, e string) string { return e }, "q := ", "\nq", true},
+		{"map", "{", "}", 4, func(k int, e string) string { return e }, "q := ", "", false},
+		{"call", "foo(", ")", 6, func(k int, e string) string { return e }, "", "", false},
+		{"params", "func g(", ") {\n}", 5, func(k int, e string) string { return fmt.Sprintf("p%d=%s", k, e) }, "", "", false},
+	}
+	n := 0
+	for _, sh := range shapes {
+		for size := 1; size <= sh.maxN; size++ {
+			for i := 0; i < size; i++ {
+				for form := range c08commentForms {
+					for ai, cur := range c08elemPool {
+						for bi, next := range c08elemPool {
+							if c.Enough() {
+								return
+							}
+							if !c.Thorough() {
+								// rotate the commented element, keep the signed successors
+								if ai != (size+i+form)%len(c08elemPool) {
+									continue
+								}
+								if bi != 1 && bi != 2 && bi != (size+2*i+form)%len(c08elemPool) {
+									continue
+								}
+							}
+							elems := make([]string, size)
+							for k := range elems {
+								e := fmt.Sprint(k + 1)
+								if k == i {
+									e = cur
+								} else if k == i+1 {
+									e = next
+								}
+								if sh.name == "map" {
+									key := c08keyPool[(k+ai+bi)%len(c08keyPool)]
+									if k == i+1 {
+										key = c08keyPool[bi%len(c08keyPool)]
+									}
+									e = key + " : " + e
+								}
+								elems[k] = sh.render(k, e)
+							}
+							if i == size-1 && bi > 0 && !c.Thorough() {
+								continue // no successor: one variant is enough
+							}
+							for _, perLine := range []bool{false, true} {
+								src := sh.prefix + c08commented(sh.open, sh.close, elems, i, form, perLine) + sh.suffix
+								n++
+								s.one(c08case{"comment", src, sh.eval}, n%6 == 0 || c.Thorough())
+							}
+						}
+					}
+				}
+			}
+		}
+	}
+	c.Extra["commented_container_sources"] = n
+}
+
 // witnesses of the defects (F12, F13, comments, if true) — replayed first on every run
 var c08witnesses = []c08case{
 	{"expr", "10 - (2 + 3)", true}, {"expr", "not (a and b)", false}, {"expr", "-(a + b)", true},
@@ -709,11 +832,13 @@ var c08witnesses = []c08case{
 	{"comment", "foo(1 # c\n, 2)", false}, {"comment", "m := {\"a\" : 1, # first\n \"b\" : 2 # second\n}", false},
 	{"comment", "x := [\n 1 # c\n, -2, 3, 4, 5]", false}, {"comment", "x := [\n 1 # c\n, 2, 3, 4, 5]", false},
 	{"comment", "a := 1 # x, y,\nb := 2", false},
+	{"comment", "a := [1 # one\n, +2, 3, 4, 5]", true}, {"comment", "a := {1 : 1 # one\n, +2 : 2, 3 : 3}", false},
+	{"comment", "a := [1 # one\n, -2, 3, 4, 5]", true}, {"comment", "foo(1 # one\n, +2, [1, 2, 3, 4, 5])", false},
 	{"expr", "a * (b / c)", true}, {"string", "r\"a\n{{1+2}}\"", true},
 }
 
 func runC08(c *Ctx) error {
-	c.Rule = "sources by family — expr: every operator of parser.astNodeMap (read from the implementation's tables) nested under every other on either side with/without parentheses (exhaustive depth 2) plus seeded random fully parenthesised trees of depth <= 4 in 11 contexts; stmt: every block-bearing statement kind filled with every leaf statement, every ordered pair of leaves, and every container (depth 2); container: lists/maps/calls with 0..7 elements; string: values over {a,\",',\\,newline,tab,{{1+2}},{{,}},space,ä,€} up to length 3 in quoted/single-quoted/raw forms, at top level and inside a block; comment: a post or pre comment inserted before every token of 10 base programs; corpus: .ecal files and ecal.md code blocks of the repository. Oracles: re-parse equal up to positions/comments, idempotence, equal evaluation result, FormatFiles on a scratch directory; model: token sequence of the real output vs the Coq printer model. Non-trivial = the tree has children; distinct by source text"
+	c.Rule = "sources by family — expr: every operator of parser.astNodeMap (read from the implementation's tables) nested under every other on either side with/without parentheses (exhaustive depth 2) plus seeded random fully parenthesised trees of depth <= 4 in 11 contexts; stmt: every block-bearing statement kind filled with every leaf statement, every ordered pair of leaves, and every container (depth 2); container: lists/maps/calls with 0..7 elements; string: values over {a,\",',\\,newline,tab,{{1+2}},{{,}},space,ä,€} up to length 3 in quoted/single-quoted/raw forms, at top level and inside a block; comment: a post or pre comment inserted before every token of 10 base programs, and post/pre comments after/before every element (also between element and separator, separator leading or trailing, one line or one element per line) of lists with 1..7 elements, maps with 1..4 entries, calls with 1..6 arguments and parameter lists with 1..5 presets, the commented element and its successor drawn from {n, -n, +n, not x, string, (a + b), list, map, identifier, call}; corpus: .ecal files and ecal.md code blocks of the repository. Oracles: re-parse equal up to positions/comments, idempotence, equal evaluation result, FormatFiles on a scratch directory; model: token sequence of the real output vs the Coq printer model. Non-trivial = the tree has children; distinct by source text"
 	c.BeginCases("From Coq Require Import String.\nFrom Ecal Require Import Common.Bytes Common.Ast gen.Tokens Run.RunC08.\nOpen Scope string_scope.", "case", 120)
 	s := &c08state{c: c, seenTree: map[string]bool{}}
 
@@ -844,6 +969,8 @@ func runC08(c *Ctx) error {
 			}
 		}
 	}
+	// comments around every element of lists, maps, call arguments and parameter lists
+	s.commentedContainers()
 	// comments before / after every token
 	for _, base := range c08commentBases {
 		toks := parser.LexToList("c08", base)
